@@ -208,6 +208,11 @@ def unit(cfg):
                % ("every name in the cache directory (the code under test enumerates it)" if shared == "all"
                   else sorted(os.path.basename(x) for x in shared)))
 
+    bound = cfg["bound"]
+    if shared == "all" and bound is None:
+        # every temporary name is a yield point: keep the exploration finite
+        bound = 2
+        u.note("directory enumeration seen: all names shared, preemption bound 2 applied to this unit")
     budget = 120.0 if cfg["tier"] == "quick" else 300.0
     t_start = time.time()
     failing = [0]
@@ -216,7 +221,7 @@ def unit(cfg):
         if time.time() - t_start > budget or failing[0] >= 200:
             # stop: reported as truncated exploration (inconclusive), never as success
             ex.max_paths = 0
-        ch = S.SymbolicChooser(crash_candidates=cands, preemption_bound=cfg["bound"])
+        ch = S.SymbolicChooser(crash_candidates=cands, preemption_bound=bound)
         r = run_model(setup, n, ch, dir_exists=cfg["dir"], shared=shared, kind=kind)
         if not (all(f["ok"] for f in r["procs"] if f["state"] != "dead") and r["fresh"]["ok"]):
             failing[0] += 1
